@@ -301,6 +301,23 @@ func (h *h18) ubiScenarios() {
 	for _, dt := range []int64{2700449, 2700450, 2700451, 2700452, 2700502} {
 		u.block(T+dt, &hist)
 	}
+	// 7b. the record that has just paid is re-scheduled to a LATER window by another passed proposal: stamped again
+	// (DistributionLast := the new start), silent until then
+	{
+		c := ubitypes.UpsertUBIProposal{Name: nm(20), DistributionStart: uint64(T + 2700700), DistributionEnd: 0, Amount: 2, Period: 50, Pool: "u3"}
+		err := h.w.Enact(h.ctx, 1, &c)
+		if rec := uk.GetUBIRecordByName(h.ctx, c.Name); rec != nil {
+			if err != nil || rec.DistributionLast != c.DistributionStart {
+				r.Fail("C18/ubi/upsert", fmt.Sprintf("%s re-scheduled: err=%v last=%d start=%d (a record keeps its old payout clock: it pays before it is active again)", c.Name, err, rec.DistributionLast, c.DistributionStart), nil)
+			}
+			u.tell(20, *rec)
+		} else if err == nil {
+			r.Fail("C18/ubi/upsert-lost", c.Name, nil)
+		}
+		r.Count("ubi:re-upsert:" + cls(err))
+		u.block(T+2700560, &hist)
+		u.block(T+2700590, &hist)
+	}
 	u.del(nm(20))
 	u.del(nm(20))
 	u.block(T+2700600, &hist)
